@@ -614,3 +614,56 @@ func segmentFMP4MuxParts(
 
 	return segmentDuration, nil
 }
+
+// segmentFMP4ValidSize returns the size of the leading part of a segment that is made of
+// a header (ftyp, moov) followed by complete parts (moof, mdat).
+// What follows is an incomplete tail, left by a server that was stopped while writing.
+func segmentFMP4ValidSize(r readSeekerAt) (int64, error) {
+	fileSize, err := r.Seek(0, io.SeekEnd)
+	if err != nil {
+		return 0, err
+	}
+
+	readBoxHeader := func(pos int64, typ string) (int64, bool) {
+		buf := make([]byte, 8)
+		n, _ := r.ReadAt(buf, pos)
+		if n != 8 || string(buf[4:]) != typ {
+			return 0, false
+		}
+
+		size := int64(uint32(buf[0])<<24 | uint32(buf[1])<<16 | uint32(buf[2])<<8 | uint32(buf[3]))
+		if size < 8 || (pos+size) > fileSize {
+			return 0, false
+		}
+
+		return size, true
+	}
+
+	ftypSize, ok := readBoxHeader(0, "ftyp")
+	if !ok {
+		return 0, fmt.Errorf("ftyp box not found")
+	}
+
+	moovSize, ok := readBoxHeader(ftypSize, "moov")
+	if !ok {
+		return 0, fmt.Errorf("moov box not found")
+	}
+
+	pos := ftypSize + moovSize
+
+	for {
+		moofSize, ok := readBoxHeader(pos, "moof")
+		if !ok {
+			break
+		}
+
+		mdatSize, ok := readBoxHeader(pos+moofSize, "mdat")
+		if !ok {
+			break
+		}
+
+		pos += moofSize + mdatSize
+	}
+
+	return pos, nil
+}
